@@ -48,7 +48,7 @@ class PathTable:
                  env: Optional[Dict[str, sp.Expr]] = None, call_hook: Optional[Callable] = None, inline_depth: int = 2,
                  positive: Sequence[str] = (), structured: bool = False, scope: Optional[Func] = None,
                  skip_if: Optional[Callable[[ast.If], bool]] = None, unroll: bool = False, opaque: Sequence[str] = (),
-                 search_loops: bool = False, sum_loops: bool = False):
+                 search_loops: bool = False, sum_loops: bool = False, map_loops: bool = False):
         self.prog = prog
         self.module = module
         self.acc = set(accumulators)
@@ -63,6 +63,7 @@ class PathTable:
         self.opaque = set(opaque)       # functions never inlined
         self.search_loops = search_loops    # summarise `for ...: if test: ...; break` loops as found / not found
         self.sum_loops = sum_loops          # summarise straight-line accumulation loops: acc += g(x)  ->  acc + Sum(g, seq)
+        self.map_loops = map_loops          # summarise loops that fill A[i] = g(x_i) for every element: A = SEQ(g(<e>), seq)
 
     # ------------------------------------------------------------------ translation with inlining
     def _T(self, env: Dict[str, sp.Expr], depth: int = 0) -> Translator:
@@ -202,6 +203,7 @@ class PathTable:
         if isinstance(st, ast.Assign) and len(st.targets) == 1:
             t = st.targets[0]
             v = T.tr(st.value)
+            l.env.update(getattr(T, "_named", {}))
             if isinstance(t, ast.Name):
                 l.env[t.id] = v
             elif isinstance(t, (ast.Tuple, ast.List)):
@@ -219,6 +221,11 @@ class PathTable:
                         l.env[e.id] = vv
                     elif isinstance(e, (ast.Attribute, ast.Subscript)):
                         l.events.append(("store", unparse(e), vv, st))
+                        if isinstance(e, ast.Subscript):
+                            try:
+                                l.store_at[(id(st), unparse(e))] = (T.tr(e.value), T._index(e.slice))
+                            except AnalysisError:
+                                pass
             else:
                 l.events.append(("store", unparse(t), v, st))
                 if isinstance(t, ast.Subscript):
@@ -246,6 +253,7 @@ class PathTable:
             return [l]
         if isinstance(st, ast.If):
             c = as_bool(T.tr(st.test))
+            l.env.update(getattr(T, "_named", {}))      # names bound by (x := e) in the test
             if c == sp.true:
                 return self._walk(st.body, l, depth)
             if c == sp.false:
@@ -296,6 +304,10 @@ class PathTable:
             r = self._sum_loop(st, l, depth)
             if r is not None:
                 return r
+        if isinstance(st, ast.For) and self.map_loops:
+            r = self._map_loop(st, l, depth)
+            if r is not None:
+                return r
         if isinstance(st, (ast.For, ast.While)):
             l.events.append(("loop", unparse(st.target) if isinstance(st, ast.For) else "while", sp.Symbol("<loop>"), st))
             l.snaps[id(st)] = (dict(l.env), len(l.conds))
@@ -337,6 +349,11 @@ class PathTable:
                 out = fin
             return out
         raise AnalysisError(f"decision table: unsupported statement {type(st).__name__}")
+
+
+def store_site(leaf: "Leaf", event):
+    """(base, index) of a subscript store event (also for the elements of a tuple target)."""
+    return leaf.store_at.get((id(event[3]), event[1])) or leaf.store_at.get(id(event[3]))
 
 
 def comp_element(v, i: int):
@@ -685,6 +702,123 @@ def _pt_sum_loop(self, st: ast.For, leaf: Leaf, depth: int) -> Optional[List[Lea
     return [out]
 
 
+ELT = sp.Symbol("<e>", real=True)
+SEQ = sp.Function("SEQ")
+
+
+def _pt_map_loop(self, st: ast.For, leaf: Leaf, depth: int) -> Optional[List[Leaf]]:
+    """`for i, x in enumerate(S): A[i] = g(x)` (also `A[i, :] = ...`, tuple targets, `for i in range(len(S))` with x = S[i]):
+    afterwards A is the sequence SEQ(g(<e>), S) - element k is g applied to element k of S.  Straight-line bodies only; every
+    store must be at the loop's own index into an array that is not read in the body."""
+    if st.orelse or any(isinstance(x, (ast.Break, ast.Continue, ast.If, ast.For, ast.While, ast.Try, ast.With, ast.Return, ast.Raise, ast.AugAssign)) for b in st.body for x in ast.walk(b)):
+        return None
+    T = self._T(leaf.env, depth)
+    it = st.iter
+    idx_name = elt_names = None
+    try:
+        if isinstance(it, ast.Call) and call_name(it) == "enumerate" and len(it.args) == 1 and isinstance(st.target, ast.Tuple) and len(st.target.elts) == 2 \
+                and isinstance(st.target.elts[0], ast.Name):
+            idx_name, elt_names, seq = st.target.elts[0].id, st.target.elts[1], T.tr(it.args[0])
+        elif isinstance(it, ast.Call) and call_name(it) == "range" and len(it.args) == 1 and isinstance(st.target, ast.Name) \
+                and isinstance(it.args[0], ast.Call) and call_name(it.args[0]) == "len" and len(it.args[0].args) == 1:
+            idx_name, elt_names, seq = st.target.id, None, T.tr(it.args[0].args[0])
+        else:
+            return None
+    except AnalysisError:
+        return None
+    IDX = sp.Symbol("<i>", integer=True)
+    entry = self._copy(leaf)
+    entry.env[idx_name] = IDX
+    item = sp.Function("item")
+    if isinstance(elt_names, ast.Name):
+        entry.env[elt_names.id] = ELT
+    elif isinstance(elt_names, (ast.Tuple, ast.List)):
+        for j, e in enumerate(elt_names.elts):
+            if isinstance(e, ast.Name):
+                entry.env[e.id] = item(ELT, sp.Integer(j))
+    n_ev = len(entry.events)
+    try:
+        body = self._walk(st.body, entry, depth)
+    except AnalysisError:
+        return None
+    if len(body) != 1:
+        return None
+    b = body[0]
+    ALL = sp.Function("slice")(sp.Symbol("None"), sp.Symbol("None"), sp.Symbol("None"))
+    filled: Dict[str, sp.Expr] = {}
+    for e in b.events[n_ev:]:
+        if e[0] != "store":
+            return None
+        site = store_site(b, e)
+        if site is None:
+            return None
+        base_node = e[3]
+        ix = site[1]
+        if not (ix == IDX or (getattr(ix, "func", None) == sp.Function("idx") and ix.args[0] == IDX and all(a == ALL for a in ix.args[1:]))):
+            return None
+        name = e[1].split("[")[0]
+        if not name.isidentifier() or name in filled:
+            return None
+        v = e[2]
+        if elt_names is None:
+            v = v.xreplace({sp.Function("getitem")(seq, IDX): ELT})
+        if v.has(IDX):
+            return None
+        filled[name] = v
+    if not filled:
+        return None
+    # the filled arrays must not be read in the body (each element is written once, from the element of S only)
+    for x in st.body:
+        for n in ast.walk(x):
+            if isinstance(n, ast.Name) and isinstance(n.ctx, ast.Load) and n.id in filled:
+                par_is_store = any(isinstance(t, ast.Subscript) and t.value is n and isinstance(t.ctx, ast.Store) for y in ast.walk(x) for t in [y])
+                if not par_is_store:
+                    return None
+    out = leaf
+    out.events.append(("loop", unparse(st.target), sp.Symbol("<loop>"), st))
+    out.snaps[id(st)] = (dict(leaf.env), len(leaf.conds))
+    for nm in assigned_names(st):
+        out.env[nm] = sp.Symbol(nm, real=True)
+    for name, v in filled.items():
+        out.env[name] = SEQ(v, seq)
+    return [out]
+
+
+def seq_form(v):
+    """Normal form of sequence-valued terms: comprehensions, maps over maps, zips of maps over one base, unzipping."""
+    fn = lambda e: getattr(getattr(e, "func", None), "__name__", "")     # noqa: E731
+    v = sp.sympify(v)
+    for _ in range(8):
+        before = v
+
+        def step(x):
+            if fn(x) in ("list", "tuple", "array", "asarray") and len(x.args) >= 1 and fn(x.args[0]) == "SEQ":
+                return x.args[0]
+            if fn(x) == "comp" and len(x.args) == 2 and fn(x.args[1]) == "gen" and len(x.args[1].args) == 2:
+                var, S = x.args[1].args
+                return SEQ(x.args[0].xreplace({var: ELT}), S)
+            if fn(x) == "SEQ" and fn(x.args[1]) == "SEQ":
+                inner = x.args[1]
+                return SEQ(x.args[0].xreplace({ELT: inner.args[0]}), inner.args[1])
+            if fn(x) == "SEQ" and fn(x.args[1]) == "zip" and x.args[1].args and all(fn(a) == "SEQ" for a in x.args[1].args) \
+                    and len({a.args[1] for a in x.args[1].args}) == 1:
+                parts = x.args[1].args
+                return SEQ(x.args[0].xreplace({ELT: sp.Tuple(*[a.args[0] for a in parts])}), parts[0].args[1])
+            if fn(x) == "getitem" and fn(x.args[0]) == "zip" and len(x.args[0].args) == 1 and fn(x.args[0].args[0]) == "splat" \
+                    and fn(x.args[0].args[0].args[0]) == "SEQ" and x.args[1].is_Integer:
+                inner = x.args[0].args[0].args[0]
+                return SEQ(sp.Function("getitem")(inner.args[0], x.args[1]), inner.args[1])
+            if fn(x) in ("item", "getitem") and isinstance(x.args[0], sp.Tuple) and x.args[1].is_Integer and 0 <= int(x.args[1]) < len(x.args[0]):
+                return x.args[0][int(x.args[1])]
+            return x
+        v = v.replace(lambda x: fn(x) in ("list", "tuple", "array", "asarray", "comp", "SEQ", "getitem", "item"), step)
+        if v == before:
+            break
+    # `item` (element of a loop / comprehension target) and `getitem` (subscript) are the same selection
+    return v.replace(lambda x: fn(x) == "item", lambda x: sp.Function("getitem")(*x.args))
+
+
+PathTable._map_loop = _pt_map_loop
 PathTable._sum_loop = _pt_sum_loop
 PathTable._search_loop = _pt_search_loop
 PathTable._rows = _pt_rows
